@@ -65,12 +65,19 @@ theorem E_seq_map {α} (f : α → Rep) (l : List α) :
 
 /-! ### the rows of `codeTable` -/
 
-theorem E_visitPrimary_own (i : Nat) (b : Bool) : E (visitPrimary codeTable (.own i) b) = [] := by
-  cases b <;> simp [visitPrimary, act, row, codeTable, Rep.seq, Rep.append, E, Rep.allRegs, extIds]
+theorem E_visitPrimary_own (i : Nat) (ty : STy) : E (visitPrimary codeTable (.own i) ty) = [] := by
+  cases ty <;> simp [visitPrimary, act, row, codeTable, Rep.seq, Rep.append, E, Rep.allRegs, extIds]
 
 theorem E_visitLimRef (o : Obj) : E (visitLimRef codeTable o) = o.trk := by
   cases h : o.kind.derivesTrackable <;>
-    simp [visitLimRef, visitPrimary, act, row, codeTable, Rep.seq, Rep.append, E, Rep.allRegs, extIds,
+    simp [visitLimRef, visitPrimary, act, STy.limited, row, codeTable, Rep.seq, Rep.append, E, Rep.allRegs,
+      extIds, Obj.trk, h]
+
+/-- an object visited with its own type (no `limit_reference`): `limit_trackable_target` lets it through iff its
+    class derives from `trackable`, and `operator()(const trackable&)` takes it by derived-to-base conversion -/
+theorem E_visitPrimary_ext (o : Obj) : E (visitPrimary codeTable (.ext o.id) (STy.ofKind o.kind)) = o.trk := by
+  cases h : o.kind.derivesTrackable <;>
+    simp [visitPrimary, act, STy.ofKind, row, codeTable, Rep.seq, Rep.append, E, Rep.allRegs, extIds,
       Obj.trk, h]
 
 /-- the `bound_argument` row: one member, `visit` -/
@@ -78,8 +85,27 @@ theorem E_bound_row (f : Mem → Rep) : E (row codeTable .bound_argument f) = E 
   simp [row, codeTable, Rep.seq]
   rw [E_append]; simp [E_done]
 
+/-- `boundLeafTable` has the action row of `codeTable` -/
+theorem act_boundLeafTable (t : Tgt) (ty : STy) : act boundLeafTable t ty = act codeTable t ty := by
+  cases ty <;> rfl
+
 theorem visitObjs_boundLeafTable (ts : List Obj) : visitObjs boundLeafTable ts = visitObjs codeTable ts := by
   have : visitLimRef boundLeafTable = visitLimRef codeTable := funext fun _ => rfl
+  simp [visitObjs, this]
+
+/-! ### `byTypeDroppedTable`: the same rows, another overload set of the action -/
+
+theorem act_byType_limited (t : Tgt) (k : Kind) :
+    act byTypeDroppedTable t (STy.limited k) = act codeTable t (STy.limited k) := by
+  cases k <;> rfl
+
+theorem act_byType_other (t : Tgt) : act byTypeDroppedTable t .other = act codeTable t .other := rfl
+
+theorem visitLimRef_byType (o : Obj) : visitLimRef byTypeDroppedTable o = visitLimRef codeTable o := by
+  simp [visitLimRef, visitPrimary, row, byTypeDroppedTable, codeTable, act_byType_limited]
+
+theorem visitObjs_byType (ts : List Obj) : visitObjs byTypeDroppedTable ts = visitObjs codeTable ts := by
+  have : visitLimRef byTypeDroppedTable = visitLimRef codeTable := funext visitLimRef_byType
   simp [visitObjs, this]
 
 theorem refsOf_eq_flatMap (bs : List BArg) : refsOf bs = bs.flatMap BArg.refs := by
@@ -126,8 +152,8 @@ theorem noKids_seq_map {α} (f : α → Rep) (l : List α) (h : ∀ x ∈ l, (f 
     have : Rep.seq ((x :: l).map f) = (f x).append (Rep.seq (l.map f)) := by simp [Rep.seq]
     rw [this, Rep.noKids_append, h x (by simp), ih (fun y hy => h y (by simp [hy]))]; rfl
 
-theorem noKids_visitPrimary (t : Tgt) (b : Bool) : (visitPrimary codeTable t b).noKids = true := by
-  cases b <;> simp [visitPrimary, act, row, codeTable, Rep.seq, Rep.append, Rep.noKids]
+theorem noKids_visitPrimary (t : Tgt) (ty : STy) : (visitPrimary codeTable t ty).noKids = true := by
+  cases ty <;> simp [visitPrimary, act, row, codeTable, Rep.seq, Rep.append, Rep.noKids]
 
 theorem noKids_visitLimRef (o : Obj) : (visitLimRef codeTable o).noKids = true := by
   simp [visitLimRef, row, codeTable, Rep.seq, Rep.noKids_append, noKids_visitPrimary, Rep.noKids]
@@ -191,7 +217,7 @@ theorem noKids_scan (e : FExpr) (h : slotFree e = true) : (scan codeTable e).noK
 theorem noKids_visitBound (b : BArg) (h : b.slotFree = true) :
     (visitBound codeTable b).noKids = true := by
   match b with
-  | .val | .ref o | .cref o | .copy o =>
+  | .val | .ref o | .cref o | .copy o | .xref o | .xcref o =>
     simp [visitBound, row, codeTable, Rep.seq, Rep.noKids_append, noKids_visitPrimary,
       noKids_visitLimRef, Rep.noKids]
   | .fn e =>
